@@ -288,6 +288,51 @@ theorem writeSession_only_when (env : Env) (hv : env.valid "" = false) (scope : 
     have hr' : scope.rollup = false := by simpa using hr
     exact ⟨fun _ => h0 hr', by simp [hr'], h1, h2, by simpa [Spec.Req.ok] using this⟩
 
+theorem writeSession_iff (env : Env) (hv : env.valid "" = false) (scope : Scope)
+    (existing : Option (List Party)) (proposed : List Party) (roles : List Role) (signers : List Addr)
+    (hnc : NoContracts env signers) :
+    validateWriteSession env scope existing proposed roles signers = .ok () ↔
+      (scope.rollup = false → ∀ p ∈ proposed, p.optional = false)
+        ∧ (scope.rollup = true → ∀ p ∈ proposed, ∃ o ∈ scope.owners, p.address = o.address ∧ p.role = o.role)
+        ∧ Spec.rolesPresent proposed roles = true ∧ Spec.provenanceRoleOk env proposed = true
+        ∧ (Spec.writeSessionReq scope existing proposed roles).ok env "WriteSession" signers = true
+        ∧ (scope.rollup = true → ∀ ex, existing = some ex → Spec.provenanceRoleOk env ex = true) := by
+  constructor
+  · intro h
+    obtain ⟨h1, h2, h3, h4, h5⟩ := writeSession_only_when env hv scope existing proposed roles signers h
+    refine ⟨h1, h2, h3, h4, h5, ?_⟩
+    intro hr ex hex
+    subst hex
+    unfold validateWriteSession at h
+    simp only [hr, Bool.not_true, Bool.false_eq_true, ↓reduceIte, orElse_ok_iff] at h
+    exact (with_only_when env hv _ _ _ _ _ h.2.2.2.2).2.2
+  · rintro ⟨h0, hp, h1, h2, h3, h4⟩
+    unfold validateWriteSession
+    unfold Spec.writeSessionReq at h3
+    simp only [orElse_ok_iff, validateOptionalParties_none_iff]
+    refine ⟨h0, ?_⟩
+    by_cases hr : scope.rollup = true
+    · simp only [hr, Bool.not_true, Bool.false_eq_true, ↓reduceIte, orElse_ok_iff,
+        validatePartiesArePresent_none_iff] at h3 ⊢
+      refine ⟨hp hr, ?_⟩
+      cases existing with
+      | some ex =>
+        simp only [orElse_ok_iff, validateRolesPresent_accepts_iff, validateProvenanceRole_fresh_iff]
+        refine ⟨h1, h2, ?_⟩
+        rw [with_iff env hv _ _ _ _ _ hnc, requiredCovered_append]
+        simp only [Spec.Req.ok, requiredCovered_append, Bool.and_eq_true] at h3
+        simp [h3.1.1, h3.1.2, h3.2, h4 hr ex rfl]
+      | none =>
+        simp only at h3 ⊢
+        rw [with_iff env hv _ _ _ _ _ hnc]
+        simp only [Spec.Req.ok, Bool.and_eq_true] at h3
+        exact ⟨h3.1, h3.2, h2⟩
+    · simp only [hr, Bool.not_false, ↓reduceIte, orElse_ok_iff, validateRolesPresent_accepts_iff,
+        validateProvenanceRole_fresh_iff] at h3 ⊢
+      refine ⟨h1, h2, ?_⟩
+      rw [without_iff env hv _ _ _ hnc, withoutPartiesOk_getPartyAddresses]
+      simpa [Spec.Req.ok] using h3
+
 /-! ### writing / deleting a record -/
 
 /-- "Writing a Record": without rollup all session parties, and all previous-session parties
